@@ -270,6 +270,11 @@ def render_paths(N, nodes, limit: int = 512, for_zero: bool = False, subst=None,
 
     def run(nodes, paths: typing.List[TPath]) -> typing.List[TPath]:
         for node in nodes:
+            if j2front.assert_call(N, node) is not None and not isinstance(node, N.CallBlock):
+                # `{% assert %}` spelled as an output / expression statement of the checking call: no text
+                if j2front.is_assert_false(N, node):
+                    paths = []
+                continue
             if isinstance(node, N.Output):
                 for e in node.nodes:
                     if isinstance(e, N.TemplateData):
@@ -354,7 +359,7 @@ def render_paths(N, nodes, limit: int = 512, for_zero: bool = False, subst=None,
             elif isinstance(node, N.For):
                 once = run(node.body, [TPath(p.parts, p.conds + ((f"for {xs(node.target)} in {xs(node.iter)}", True),), p.ph, p.env, p.cnodes) for p in paths])
                 paths = once + (paths if for_zero else [])
-            elif isinstance(node, N.CallBlock) and "_do_assert" in xs(node.call) and node.call.args and xs(node.call.args[0]) == "False":
+            elif j2front.is_assert_false(N, node):
                 paths = []  # {% assert False %}: generation fails here, no text is produced on this path
             elif isinstance(node, (N.CallBlock, N.FilterBlock, N.Block)):
                 paths = run(node.body, paths)
